@@ -25,7 +25,7 @@ func init() { harness.Register(check{}) }
 func (check) ID() string    { return "C07" }
 func (check) Level() string { return "exploration" }
 func (check) Rule() string {
-	return "capability subsets (quick: all subsets of the 10 flags that gate output + random subsets of all 17; thorough: all 2^17), each with a full start-up, a frame containing every style class (default/0-7/8-15/16-255/RGB for fg, bg and underline colour, all attribute bits, all underline styles, hyperlinks) and every width class, a cursor, a suspend/resume and a shutdown: the reference terminal's vocabulary log must contain no unknown sequence and no capability-gated sequence whose capability was not advertised (probes in the start-up block excepted), Can* accessors and TerminalID must equal the advertised set, RenderedWidth must equal the curated width table for the matching method, and the rendered frame must equal the shadow under the fallback rules; colour fallback: quick 4096 boundary-rich + 20000 random direct colours, thorough all 2^24, each must map to a palette entry attaining the minimum weighted distance. A case is one session or one colour; distinct = capability mask / colour value"
+	return "capability subsets (quick: all subsets of the 10 flags that gate output + random subsets of all 17; thorough: all 2^17), each with a full start-up, a frame containing every style class (default/0-7/8-15/16-255/RGB for fg, bg and underline colour, all attribute bits, all underline styles, hyperlinks) and every width class, a cursor, a suspend/resume and a shutdown: the reference terminal's vocabulary log must contain no unknown sequence and no capability-gated sequence whose capability was not advertised (probes in the start-up block excepted), Can* accessors and TerminalID must equal the advertised set, RenderedWidth must equal the curated width table for the matching method, and the rendered frame must equal the shadow under the fallback rules; colour fallback: quick 4096 boundary-rich + 20000 random direct colours, thorough all 2^24, each must map to a palette entry attaining the minimum weighted distance; sessions with Options.EventQueueSize 1 (random capability masks, half of them with synchronized output and RGB; quick 48, thorough 800): the replies pile up behind the one-slot queue during start-up and the accessors (explicit width excepted) must still equal the advertised set. A case is one session or one colour; distinct = capability mask / colour value"
 }
 func (check) Assumptions() []string {
 	return []string{
@@ -494,7 +494,7 @@ func (c check) Run(w *harness.W, b harness.Batch) {
 }
 
 func (check) Finalize(tier string, m *harness.Merged) string {
-	if m.Counts["sessions"] == 0 || m.Counts["colours_checked"] == 0 || m.Counts["widths_checked"] == 0 {
+	if m.Counts["sessions"] == 0 || m.Counts["sessions_event_queue_of_one"] == 0 || m.Counts["colours_checked"] == 0 || m.Counts["widths_checked"] == 0 {
 		return "a sub-workload observed nothing"
 	}
 	return ""
